@@ -1,1126 +1,1 @@
-(* C15 - proofs.  Part 1: the reactor's queue.  Part 2: the event loop of one
-   Spinner.run on an idle reactor ends with the earliest crashing action.
-   Part 3: one run.  Part 4: histories.  Part 5: the statement. *)
-From Coq Require Import Permutation.
 From TT Require Import Lib.Base Lib.Sort Model.Reactor Model.Spinner Gen.Spinnertabs Spec.C15 Corr.C15.
-
-(* ------------------------------------------------------------------ *)
-(* Part 1: queue facts                                                  *)
-(* ------------------------------------------------------------------ *)
-Section Queue.
-  Context {A : Type}.
-  Notation dcall := (dcall A).
-
-  Lemma min_time_le (q : list dcall) m c : min_time q = Some m -> In c q -> m <= dc_time c.
-  Proof.
-    revert m; induction q as [|x r IH]; intros m Hm Hin; [destruct Hin|].
-    simpl in Hm. destruct (min_time r) as [m'|] eqn:E; injection Hm as <-.
-    - destruct Hin as [->|Hin]; [apply Nat.le_min_l|].
-      etransitivity; [apply Nat.le_min_r|]. apply (IH m'); auto.
-    - destruct Hin as [->|Hin]; [lia|]. destruct r; [destruct Hin|discriminate].
-  Qed.
-
-  Lemma min_time_in (q : list dcall) m : min_time q = Some m -> exists c, In c q /\ dc_time c = m.
-  Proof.
-    revert m; induction q as [|x r IH]; intros m Hm; [discriminate|].
-    simpl in Hm. destruct (min_time r) as [m'|] eqn:E; injection Hm as <-.
-    - destruct (Nat.min_dec (dc_time x) m') as [H|H]; rewrite H.
-      + exists x; split; [left|]; reflexivity.
-      + destruct (IH m' eq_refl) as [c [Hc Ht]]. exists c; split; [right|]; assumption.
-    - exists x; split; [left|]; reflexivity.
-  Qed.
-
-  Lemma min_time_none (q : list dcall) : min_time q = None -> q = [].
-  Proof. destruct q; [reflexivity|discriminate]. Qed.
-
-  Lemma candidates_spec (q : list dcall) c :
-    In c (candidates q) -> In c q /\ forall c', In c' q -> dc_time c <= dc_time c'.
-  Proof.
-    unfold candidates. destruct (min_time q) as [m|] eqn:E; [|intros []].
-    intros H. apply filter_In in H as [Hin Ht]. apply Nat.eqb_eq in Ht. split; [exact Hin|].
-    intros c' Hc'. rewrite Ht. eapply min_time_le; eauto.
-  Qed.
-
-  Lemma candidates_nonempty (q : list dcall) : q <> [] -> candidates q <> [].
-  Proof.
-    intros Hq. unfold candidates. destruct (min_time q) as [m|] eqn:E.
-    - destruct (min_time_in q m E) as [c [Hc Ht]]. intro H.
-      assert (In c (filter (fun c => Nat.eqb (dc_time c) m) q)) as Hin.
-      { apply filter_In; split; [exact Hc|]. apply Nat.eqb_eq; exact Ht. }
-      rewrite H in Hin; destruct Hin.
-    - apply min_time_none in E. contradiction.
-  Qed.
-
-  Lemma choose_in orc (cands : list dcall) c orc' : choose orc cands = Some (c, orc') -> In c cands.
-  Proof.
-    unfold choose. destruct cands as [|x [|y r]]; [discriminate| |].
-    - intros H; injection H as <- _. left; reflexivity.
-    - destruct orc as [|k o]; intros H.
-      + injection H as <- _. left; reflexivity.
-      + assert (Hlt : k mod length (x :: y :: r) < length (x :: y :: r)).
-        { apply Nat.mod_upper_bound. cbn [length]. discriminate. }
-        revert H Hlt. generalize (k mod length (x :: y :: r)). intros n H Hlt.
-        assert (E : c = nth n (x :: y :: r) x) by congruence.
-        rewrite E. apply nth_In. exact Hlt.
-  Qed.
-
-  Lemma choose_some orc (cands : list dcall) : cands <> [] -> exists c orc', choose orc cands = Some (c, orc').
-  Proof.
-    destruct cands as [|x [|y r]]; [contradiction| |]; intros _; simpl.
-    - eauto.
-    - destruct orc; eauto.
-  Qed.
-
-  Lemma pop_next_spec (r : reactor A) c r' :
-    pop_next r = Some (c, r') ->
-    In c (queue r) /\ (forall c', In c' (queue r) -> dc_time c <= dc_time c')
-    /\ queue r' = remove_seq (dc_seq c) (queue r)
-    /\ running r' = running r /\ readers r' = readers r /\ hooks r' = hooks r
-    /\ really_stopped r' = really_stopped r /\ nextseq r' = nextseq r.
-  Proof.
-    unfold pop_next. destruct (choose (oracle r) (candidates (queue r))) as [[c0 o]|] eqn:E; [|discriminate].
-    intros H; injection H as <- <-. apply choose_in in E. apply candidates_spec in E as [H1 H2].
-    simpl. repeat split; auto.
-  Qed.
-
-  Lemma pop_next_some (r : reactor A) : queue r <> [] -> exists c r', pop_next r = Some (c, r').
-  Proof.
-    intros Hq. unfold pop_next.
-    destruct (choose_some (oracle r) (candidates (queue r)) (candidates_nonempty _ Hq)) as [c [o E]].
-    rewrite E. eauto.
-  Qed.
-
-  Lemma remove_seq_in s (q : list dcall) c : In c (remove_seq s q) -> In c q /\ dc_seq c <> s.
-  Proof.
-    unfold remove_seq. intros H. apply filter_In in H as [H1 H2]. split; [exact H1|].
-    apply negb_true_iff in H2. apply Nat.eqb_neq in H2. exact H2.
-  Qed.
-
-  Lemma remove_seq_keeps s (q : list dcall) c : In c q -> dc_seq c <> s -> In c (remove_seq s q).
-  Proof.
-    intros H1 H2. apply filter_In; split; [exact H1|]. apply negb_true_iff. apply Nat.eqb_neq. exact H2.
-  Qed.
-
-  Lemma remove_seq_cons s x (r : list dcall) :
-    remove_seq s (x :: r) = if negb (dc_seq x =? s) then x :: remove_seq s r else remove_seq s r.
-  Proof. reflexivity. Qed.
-
-  Lemma remove_seq_length s (q : list dcall) : length (remove_seq s q) <= length q.
-  Proof.
-    induction q as [|x r IH]; [simpl; lia|]. rewrite remove_seq_cons.
-    destruct (negb (dc_seq x =? s)); simpl; lia.
-  Qed.
-
-  Lemma remove_seq_length_lt (q : list dcall) c : In c q -> length (remove_seq (dc_seq c) q) < length q.
-  Proof.
-    induction q as [|x r IH]; [intros []|]. rewrite remove_seq_cons. intros [->|Hin].
-    - rewrite Nat.eqb_refl. cbn [negb]. pose proof (remove_seq_length (dc_seq c) r). simpl; lia.
-    - specialize (IH Hin). destruct (negb (dc_seq x =? dc_seq c)); simpl; lia.
-  Qed.
-
-  Lemma remove_seq_nodup s (q : list dcall) : NoDup (map dc_seq q) -> NoDup (map dc_seq (remove_seq s q)).
-  Proof.
-    induction q as [|x r IH]; simpl; [auto|]. intros H. inversion H as [|? ? Hn Hr]; subst.
-    destruct (negb (dc_seq x =? s)); simpl; [|auto]. constructor; [|auto].
-    intro Hin. apply Hn. apply in_map_iff in Hin as [y [Hy Hin]]. apply in_map_iff. exists y. split; [exact Hy|].
-    apply remove_seq_in in Hin as [Hin _]. exact Hin.
-  Qed.
-
-  (* with distinct handles, removing the call c removes exactly c *)
-  Lemma remove_seq_perm (q : list dcall) c :
-    NoDup (map dc_seq q) -> In c q -> Permutation q (c :: remove_seq (dc_seq c) q).
-  Proof.
-    induction q as [|x r IH]; [intros _ []|]. intros Hnd Hin. inversion Hnd as [|? ? Hn Hr]; subst. simpl.
-    destruct Hin as [->|Hin].
-    - rewrite Nat.eqb_refl. simpl. apply perm_skip.
-      assert (forall y, In y r -> dc_seq y <> dc_seq c) as Hne.
-      { intros y Hy E. apply Hn. rewrite <- E. apply in_map. exact Hy. }
-      clear -Hne. induction r as [|y r IH]; simpl; [reflexivity|].
-      destruct (Nat.eqb_spec (dc_seq y) (dc_seq c)) as [E|E]; simpl.
-      + exfalso. apply (Hne y); [left; reflexivity|exact E].
-      + apply perm_skip. apply IH. intros z Hz. apply Hne. right; exact Hz.
-    - destruct (Nat.eqb_spec (dc_seq x) (dc_seq c)) as [E|E]; simpl.
-      + exfalso. apply Hn. rewrite E. apply in_map. exact Hin.
-      + etransitivity; [apply perm_skip; apply IH; assumption|]. apply perm_swap.
-  Qed.
-End Queue.
-
-(* ------------------------------------------------------------------ *)
-(* Part 2: the event loop of one run                                    *)
-(* ------------------------------------------------------------------ *)
-Local Arguments remove_seq : simpl never.
-Definition is_timeout (a : action) : bool := match a with ATimeout => true | _ => false end.
-Definition crasher (a : action) : bool :=
-  match a with ATimeout | AFire _ | AStopReq => true | _ => false end.
-(* what run() reports when this action is the one that crashes the reactor *)
-Definition act_result (a : action) : res value exc :=
-  match a with
-  | ATimeout => Raised ETimeout
-  | AFire o => result_of o
-  | AStopReq => Raised ENoResult
-  | _ => Raised EOther
-  end.
-Definition qtoks (q : list (dcall action)) : list nat :=
-  filter not_timeout_tok (map (fun c => tok_of (dc_act c)) q).
-
-Local Arguments qtoks : simpl never.
-
-Lemma qtoks_perm q q' : Permutation q q' -> Permutation (qtoks q) (qtoks q').
-Proof.
-  intros H. unfold qtoks. induction H; simpl.
-  - reflexivity.
-  - destruct (not_timeout_tok _); [apply perm_skip|]; assumption.
-  - destruct (not_timeout_tok (tok_of (dc_act x))), (not_timeout_tok (tok_of (dc_act y)));
-      try reflexivity. apply perm_swap.
-  - etransitivity; eassumption.
-Qed.
-
-Lemma qtoks_cons c q :
-  qtoks (c :: q) = if not_timeout_tok (tok_of (dc_act c)) then tok_of (dc_act c) :: qtoks q else qtoks q.
-Proof. reflexivity. Qed.
-
-Lemma qtoks_pop_zero q c q' :
-  Permutation q (c :: q') -> not_timeout_tok (tok_of (dc_act c)) = false -> Permutation (qtoks q') (qtoks q).
-Proof. intros H E. apply qtoks_perm in H. rewrite qtoks_cons, E in H. symmetry; exact H. Qed.
-
-Lemma qtoks_pop_tok ran q c q' t :
-  Permutation q (c :: q') -> tok_of (dc_act c) = t -> not_timeout_tok t = true ->
-  Permutation ((ran ++ [t]) ++ qtoks q') (ran ++ qtoks q).
-Proof.
-  intros H <- E. apply qtoks_perm in H. rewrite qtoks_cons, E in H. rewrite <- app_assoc.
-  apply Permutation_app_head. symmetry. exact H.
-Qed.
-
-Lemma qtoks_app q q' : qtoks (q ++ q') = qtoks q ++ qtoks q'.
-Proof. unfold qtoks. rewrite map_app, filter_app. reflexivity. Qed.
-
-(* cancelling the timeout call does not change the tokens of the function's calls *)
-Lemma qtoks_remove_timeout s0 q :
-  Forall (fun c => Nat.eqb (dc_seq c) s0 = is_timeout (dc_act c)) q -> qtoks (remove_seq s0 q) = qtoks q.
-Proof.
-  induction 1 as [|c r Hc Hr IH]; [reflexivity|]. rewrite remove_seq_cons.
-  destruct (dc_seq c =? s0) eqn:E; cbn [negb].
-  - rewrite IH. unfold qtoks. simpl. destruct (dc_act c); try discriminate. reflexivity.
-  - unfold qtoks in *. simpl. rewrite IH. reflexivity.
-Qed.
-
-Lemma Forall_remove_seq {A} (P : dcall A -> Prop) s q : Forall P q -> Forall P (remove_seq s q).
-Proof.
-  intros H. apply Forall_forall. intros c Hc. apply remove_seq_in in Hc as [Hc _].
-  eapply Forall_forall in H; eauto.
-Qed.
-
-Lemma nodup_seq_inj {A} (q : list (dcall A)) c c' :
-  NoDup (map dc_seq q) -> In c q -> In c' q -> dc_seq c = dc_seq c' -> c = c'.
-Proof.
-  induction q as [|x r IH]; [intros _ []|]. simpl. intros H Hc Hc' E. inversion H as [|? ? Hn Hr]; subst.
-  destruct Hc as [->|Hc], Hc' as [->|Hc']; auto.
-  - exfalso. apply Hn. rewrite E. apply in_map. exact Hc'.
-  - exfalso. apply Hn. rewrite <- E. apply in_map. exact Hc.
-Qed.
-
-Record LI (s0 : nat) (w : world) : Prop := {
-  li_running : running (w_r w) = true;
-  li_spinning : sp_spinning (w_sp w) = true;
-  li_stop : w_stop w = SFake;
-  li_tc : sp_timeout_call (w_sp w) = Some s0;
-  li_succ : sp_success (w_sp w) = None;
-  li_fail : sp_failure (w_sp w) = None;
-  li_nodup : NoDup (map dc_seq (queue (w_r w)));
-  li_seq : Forall (fun c => Nat.eqb (dc_seq c) s0 = is_timeout (dc_act c)) (queue (w_r w));
-  li_tok : Forall (fun c => is_timeout (dc_act c) = true \/ not_timeout_tok (tok_of (dc_act c)) = true)
-                  (queue (w_r w));
-  li_crasher : exists c, In c (queue (w_r w)) /\ crasher (dc_act c) = true
-}.
-
-(* what the loop leaves untouched *)
-Definition same_env (w w' : world) : Prop :=
-  w_sig w' = w_sig w /\ w_flag w' = w_flag w /\ w_stop w' = w_stop w /\ w_reentry w' = w_reentry w
-  /\ sp_junk (w_sp w') = sp_junk (w_sp w) /\ sp_saved (w_sp w') = sp_saved (w_sp w)
-  /\ readers (w_r w') = readers (w_r w) /\ hooks (w_r w') = hooks (w_r w)
-  /\ really_stopped (w_r w') = really_stopped (w_r w).
-
-Record LoopEnd (w w' : world) (c : dcall action) : Prop := {
-  le_stopped : running (w_r w') = false;
-  le_in : In c (queue (w_r w));
-  le_crasher : crasher (dc_act c) = true;
-  le_first : forall c', In c' (queue (w_r w)) -> crasher (dc_act c') = true -> dc_time c <= dc_time c';
-  le_result : get_result (w_sp w') = act_result (dc_act c);
-  le_perm : Permutation (w_ran w' ++ qtoks (queue (w_r w'))) (w_ran w ++ qtoks (queue (w_r w)));
-  le_env : same_env w w'
-}.
-
-Lemma loop_not_running fuel w :
-  running (w_r w) = false -> loop w_r set_r exec_call fuel w = (LDone, w).
-Proof. intros H. destruct fuel; simpl; rewrite H; reflexivity. Qed.
-
-Lemma loop_spec s0 : forall fuel w, LI s0 w -> length (queue (w_r w)) <= fuel ->
-  exists w' c, loop w_r set_r exec_call fuel w = (LDone, w') /\ LoopEnd w w' c.
-Proof.
-  induction fuel as [|f IH]; intros w L Hlen.
-  - destruct (li_crasher _ _ L) as [c [Hc _]]. destruct (queue (w_r w)); [destruct Hc|simpl in Hlen; lia].
-  - destruct (li_crasher _ _ L) as [c0 [Hc0 Hcr0]].
-    assert (Hq : queue (w_r w) <> []) by (intro E; rewrite E in Hc0; destruct Hc0).
-    destruct (pop_next_some (w_r w) Hq) as [c [r' Hpop]].
-    destruct (pop_next_spec _ _ _ Hpop) as (Hin & Hmin & Hq' & Hrun & Hrd & Hhk & Hrs & _).
-    cbn [loop]. rewrite (li_running _ _ L). cbn [negb]. rewrite Hpop.
-    pose proof (remove_seq_perm _ _ (li_nodup _ _ L) Hin) as Hperm.
-    pose proof (remove_seq_length_lt _ _ Hin) as Hlt.
-    destruct L as [Lrun Lspin Lstop Ltc Lsucc Lfail Lnd Lseq Ltok _].
-    destruct w as [r st sg fl sp ran re]. destruct sp as [su fa jk spin tc sv].
-    cbn [w_r w_stop w_sp w_sig w_flag w_ran w_reentry sp_success sp_failure sp_junk sp_spinning
-         sp_timeout_call sp_saved] in *.
-    subst st spin tc su fa.
-    assert (Htokc : is_timeout (dc_act c) = true \/ not_timeout_tok (tok_of (dc_act c)) = true).
-    { eapply Forall_forall in Ltok; eauto. }
-    assert (Hseqc : Nat.eqb (dc_seq c) s0 = is_timeout (dc_act c)).
-    { eapply Forall_forall in Lseq; eauto. }
-    unfold exec_call. destruct (dc_act c) as [|o|  |t|T' f'] eqn:Eact.
-    + (* the timeout call *)
-      eexists. exists c. split.
-      * apply loop_not_running.
-        unfold timed_out, stop_reactor, set_r, set_sp. cbn. reflexivity.
-      * unfold timed_out, stop_reactor, set_r, set_sp. cbn.
-        constructor; cbn; auto.
-        -- rewrite Eact; reflexivity.
-        -- rewrite Eact; reflexivity.
-        -- rewrite Hq'. apply Permutation_app_head.
-           eapply qtoks_pop_zero; [exact Hperm|]. rewrite Eact. reflexivity.
-        -- unfold same_env; cbn. repeat split; auto.
-    + (* the function's Deferred fires *)
-      eexists. exists c. split.
-      * apply loop_not_running.
-        unfold stop_reactor, got, cancel_timeout, log_ran, set_r, set_sp, set_ran. cbn.
-        destruct o; cbn; reflexivity.
-      * unfold stop_reactor, got, cancel_timeout, log_ran, set_r, set_sp, set_ran. cbn.
-        destruct o as [v|e]; cbn.
-        -- constructor; cbn; auto.
-           ++ rewrite Eact; reflexivity.
-           ++ rewrite Eact; reflexivity.
-           ++ rewrite Hq'. rewrite qtoks_remove_timeout by (apply Forall_remove_seq; exact Lseq).
-              eapply qtoks_pop_tok; [exact Hperm|rewrite Eact; reflexivity|reflexivity].
-           ++ unfold same_env; cbn. repeat split; auto.
-        -- constructor; cbn; auto.
-           ++ rewrite Eact; reflexivity.
-           ++ rewrite Eact; reflexivity.
-           ++ rewrite Hq'. rewrite qtoks_remove_timeout by (apply Forall_remove_seq; exact Lseq).
-              eapply qtoks_pop_tok; [exact Hperm|rewrite Eact; reflexivity|reflexivity].
-           ++ unfold same_env; cbn. repeat split; auto.
-    + (* a stop request *)
-      eexists. exists c. split.
-      * apply loop_not_running. unfold reactor_stop, log_ran, set_r, set_ran. cbn. reflexivity.
-      * unfold reactor_stop, log_ran, set_r, set_ran. cbn.
-        constructor; cbn; auto.
-        -- rewrite Eact; reflexivity.
-        -- rewrite Eact; reflexivity.
-        -- rewrite Hq'. eapply qtoks_pop_tok; [exact Hperm|rewrite Eact; reflexivity|reflexivity].
-        -- unfold same_env; cbn. repeat split; auto.
-    + (* one of the function's idle calls: the loop goes on *)
-      assert (Ht : not_timeout_tok t = true) by (destruct Htokc as [H|H]; [discriminate|exact H]).
-      set (w1 := log_ran t (set_r r' (mkW r SFake sg fl (mkSp None None jk true (Some s0) sv) ran re))).
-      assert (L1 : LI s0 w1).
-      { unfold w1, log_ran, set_r, set_ran. constructor; cbn.
-        - congruence.
-        - reflexivity.
-        - reflexivity.
-        - reflexivity.
-        - reflexivity.
-        - reflexivity.
-        - rewrite Hq'. apply remove_seq_nodup. exact Lnd.
-        - rewrite Hq'. apply Forall_remove_seq. exact Lseq.
-        - rewrite Hq'. apply Forall_remove_seq. exact Ltok.
-        - exists c0. split; [|exact Hcr0]. rewrite Hq'. apply remove_seq_keeps; [exact Hc0|].
-          intro E. assert (c0 = c) by (eapply nodup_seq_inj; eauto). subst c0.
-          rewrite Eact in Hcr0. discriminate. }
-      assert (Hlen1 : length (queue (w_r w1)) <= f).
-      { unfold w1, log_ran, set_r, set_ran. cbn. rewrite Hq'. lia. }
-      destruct (IH w1 L1 Hlen1) as [w' [c' [Hloop E]]].
-      exists w', c'. split; [exact Hloop|].
-      destruct E as [E1 E2 E3 E4 E5 E6 E7].
-      unfold w1, log_ran, set_r, set_ran in E2, E4, E6, E7. cbn in E2, E4, E6, E7. rewrite Hq' in *.
-      constructor; cbn; auto.
-      * apply remove_seq_in in E2 as [E2 _]. exact E2.
-      * intros c'' Hc'' Hcr''. apply E4; [|exact Hcr''].
-        apply remove_seq_keeps; [exact Hc''|]. intro E.
-        assert (c'' = c) by (eapply nodup_seq_inj; eauto). subst c''. rewrite Eact in Hcr''. discriminate.
-      * rewrite E6. eapply qtoks_pop_tok; [exact Hperm|rewrite Eact; reflexivity|exact Ht].
-      * unfold same_env in *. cbn in *. rewrite Hrd, Hhk, Hrs in E7. exact E7.
-    + (* the startup hook is never a delayed call *)
-      destruct Htokc as [H|H]; discriminate.
-Qed.
-
-(* ------------------------------------------------------------------ *)
-(* Part 3: one run on an idle reactor                                   *)
-(* ------------------------------------------------------------------ *)
-Lemma spinner_iterations_0 : spinner_iterations = 0.
-Proof. reflexivity. Qed.
-
-(* what reactor.run() clobbers is among what Spinner preserves (table obligation) *)
-Lemma reactor_signals_preserved : forall s, In s reactor_signals -> In s preserved_signals.
-Proof.
-  intros s H. apply (proj1 (forallb_forall (fun s => existsb (Nat.eqb s) preserved_signals) reactor_signals)
-                           eq_refl) in H.
-  apply existsb_exists in H as [x [Hx E]]. apply Nat.eqb_eq in E. subst. exact Hx.
-Qed.
-
-Fixpoint extras_calls (n s i : nat) (ds : list time) : list (dcall action) :=
-  match ds with
-  | [] => []
-  | d :: r => mkCall (n + d) s (ANoop (tok_extra i)) :: extras_calls n (S s) (S i) r
-  end.
-
-Lemma schedule_extras_spec ds : forall i n s q hk rd rn rs orc st sg fl sp ran re,
-  schedule_extras i ds (mkW (mkReactor n s q hk rd rn rs orc) st sg fl sp ran re)
-  = mkW (mkReactor n (s + length ds) (q ++ extras_calls n s i ds) hk rd rn rs orc) st sg fl sp ran re.
-Proof.
-  induction ds as [|d r IH]; intros; cbn [schedule_extras extras_calls length].
-  - rewrite Nat.add_0_r, app_nil_r. reflexivity.
-  - unfold later, call_later, set_r. cbn. rewrite IH. rewrite <- app_assoc. cbn [app].
-    rewrite Nat.add_succ_r. reflexivity.
-Qed.
-
-Lemma add_sels_spec k : forall j n s q hk rd rn rs orc st sg fl sp ran re,
-  add_sels j k (mkW (mkReactor n s q hk rd rn rs orc) st sg fl sp ran re)
-  = mkW (mkReactor n s q hk (rd ++ map tok_sel (seq j k)) rn rs orc) st sg fl sp ran re.
-Proof.
-  induction k as [|k IH]; intros; cbn [add_sels seq map].
-  - rewrite app_nil_r. reflexivity.
-  - unfold add_reader, set_readers, set_r. cbn. rewrite IH. rewrite <- app_assoc. reflexivity.
-Qed.
-
-Lemma extras_seqs ds : forall n s i, map dc_seq (extras_calls n s i ds) = seq s (length ds).
-Proof. induction ds as [|d r IH]; intros; simpl; [reflexivity|]. rewrite IH. reflexivity. Qed.
-
-Lemma extras_acts ds : forall n s i c, In c (extras_calls n s i ds) -> exists j, dc_act c = ANoop (tok_extra j).
-Proof.
-  induction ds as [|d r IH]; intros n s i c H; [destruct H|]. destruct H as [<-|H]; [eexists; reflexivity|].
-  eapply IH; eauto.
-Qed.
-
-Lemma qtoks_extras ds : forall n s i, qtoks (extras_calls n s i ds) = map tok_extra (seq i (length ds)).
-Proof.
-  induction ds as [|d r IH]; intros; [reflexivity|]. cbn [extras_calls length seq map].
-  rewrite qtoks_cons. cbn [dc_act tok_of]. rewrite IH. reflexivity.
-Qed.
-
-(* the function's own part of run_function, before what it returns is looked at *)
-Definition fn_prefix (inner : world -> res value exc * world) (f : fn) (w : world) : world :=
-  let w := schedule_extras 0 (f_extras f) w in
-  let w := add_sels 0 (f_sels f) w in
-  let w := match f_stop f with Some s => later s AStopReq w | None => w end in
-  let w := match f_setsig f with Some (s, h) => set_sig (setsig s h (w_sig w)) w | None => w end in
-  let w := if f_reenter f
-           then let '(r, w') := inner w in set_reentry (Some (is_reentry r)) w'
-           else w in
-  if f_stop_now f then reactor_stop w else w.
-
-Lemma run_function_eq inner f w :
-  run_function inner f w =
-  match f_shape f with
-  | Sync _ o => stop_reactor (got o (fn_prefix inner f w))
-  | Later t o => later t (AFire o) (fn_prefix inner f w)
-  | Never => fn_prefix inner f w
-  end.
-Proof. reflexivity. Qed.
-
-(* C15_reentry at the level of the model's functions *)
-Lemma guarded_refuses body w : w_flag w = true -> guarded body w = (Raised EReentry, w).
-Proof. intros H. unfold guarded. rewrite H. reflexivity. Qed.
-
-Definition stop_calls (n s : nat) (f : fn) : list (dcall action) :=
-  match f_stop f with Some d => [mkCall (n + d) s AStopReq] | None => [] end.
-Definition sig_after_fn (f : fn) (sg : sigtab) : sigtab :=
-  match f_setsig f with Some (s, h) => setsig s h sg | None => sg end.
-
-Lemma fn_prefix_spec iters f n s q orc sg sp ran re :
-  fn_prefix (inner_run iters) f (mkW (mkReactor n s q [] [] true false orc) SFake sg true sp ran re)
-  = mkW (mkReactor n (s + length (f_extras f) + length (stop_calls n (s + length (f_extras f)) f))
-                   (q ++ extras_calls n s 0 (f_extras f) ++ stop_calls n (s + length (f_extras f)) f)
-                   [] (map tok_sel (seq 0 (f_sels f))) (negb (f_stop_now f)) false orc)
-        SFake (sig_after_fn f sg) true sp ran (if f_reenter f then Some true else re).
-Proof.
-  unfold fn_prefix. rewrite schedule_extras_spec, add_sels_spec. cbn [app].
-  unfold stop_calls, sig_after_fn.
-  destruct (f_stop f) as [d|]; destruct (f_setsig f) as [[a h]|]; destruct (f_reenter f); destruct (f_stop_now f);
-    unfold later, call_later, set_r, set_sig, set_reentry, reactor_stop, inner_run;
-    cbn; rewrite ?guarded_refuses by reflexivity; cbn;
-    rewrite <- ?app_assoc, ?app_nil_r, ?Nat.add_0_r, ?Nat.add_1_r; reflexivity.
-Qed.
-
-Definition fire_calls (n s : nat) (f : fn) : list (dcall action) :=
-  match f_shape f with Later t o => [mkCall (n + t) s (AFire o)] | _ => [] end.
-
-(* everything in the reactor's queue once the function has returned (nothing cancelled yet) *)
-Definition Q0 (n s : nat) (T : time) (f : fn) : list (dcall action) :=
-  let s1 := S s + length (f_extras f) in
-  mkCall (n + T) s ATimeout
-  :: extras_calls n (S s) 0 (f_extras f)
-  ++ stop_calls n s1 f
-  ++ fire_calls n (s1 + length (stop_calls n s1 f)) f.
-
-Local Arguments Q0 : simpl never.
-
-Lemma Q0_length n s T f : length (Q0 n s T f) <= length (f_extras f) + 3.
-Proof.
-  unfold Q0, stop_calls, fire_calls. cbn [length]. rewrite !app_length.
-  assert (length (extras_calls n (S s) 0 (f_extras f)) = length (f_extras f)) as ->.
-  { rewrite <- (map_length dc_seq), extras_seqs, seq_length. reflexivity. }
-  destruct (f_stop f), (f_shape f); simpl; lia.
-Qed.
-
-Lemma Q0_seqs n s T f : map dc_seq (Q0 n s T f) = seq s (length (Q0 n s T f)).
-Proof.
-  unfold Q0. cbn [map dc_seq length seq]. f_equal.
-  rewrite !map_app, !app_length, extras_seqs.
-  assert (length (extras_calls n (S s) 0 (f_extras f)) = length (f_extras f)) as ->.
-  { rewrite <- (map_length dc_seq), extras_seqs, seq_length. reflexivity. }
-  rewrite seq_app. f_equal. rewrite seq_app. unfold stop_calls, fire_calls.
-  destruct (f_stop f), (f_shape f); simpl; rewrite ?Nat.add_0_r, ?Nat.add_1_r; reflexivity.
-Qed.
-
-Lemma Q0_nodup n s T f : NoDup (map dc_seq (Q0 n s T f)).
-Proof. rewrite Q0_seqs. apply seq_NoDup. Qed.
-
-Lemma Q0_tail_seq n s T f c :
-  In c (tl (Q0 n s T f)) -> s < dc_seq c /\ is_timeout (dc_act c) = false
-                            /\ not_timeout_tok (tok_of (dc_act c)) = true.
-Proof.
-  intros H. split.
-  - assert (In (dc_seq c) (tl (map dc_seq (Q0 n s T f)))) as Hs.
-    { unfold Q0 in *. cbn [map tl] in *. apply in_map. exact H. }
-    rewrite Q0_seqs in Hs. unfold Q0 in Hs. cbn [length seq tl] in Hs. apply in_seq in Hs. lia.
-  - unfold Q0 in H. cbn [tl] in H. apply in_app_or in H as [H|H].
-    + apply extras_acts in H as [j ->]. split; reflexivity.
-    + apply in_app_or in H as [H|H].
-      * unfold stop_calls in H. destruct (f_stop f); [|destruct H]. destruct H as [<-|[]]. split; reflexivity.
-      * unfold fire_calls in H. destruct (f_shape f) as [? ?|t o|]; [destruct H| |destruct H].
-        destruct H as [<-|[]]. split; reflexivity.
-Qed.
-
-Lemma Q0_seq_inv n s T f :
-  Forall (fun c => Nat.eqb (dc_seq c) s = is_timeout (dc_act c)) (Q0 n s T f).
-Proof.
-  apply Forall_forall. intros c H. change (Q0 n s T f) with (mkCall (n + T) s ATimeout :: tl (Q0 n s T f)) in H.
-  destruct H as [<-|H]; [simpl; apply Nat.eqb_refl|].
-  apply Q0_tail_seq in H as (H1 & H2 & _). rewrite H2. apply Nat.eqb_neq. lia.
-Qed.
-
-Lemma Q0_tok_inv n s T f :
-  Forall (fun c => is_timeout (dc_act c) = true \/ not_timeout_tok (tok_of (dc_act c)) = true) (Q0 n s T f).
-Proof.
-  apply Forall_forall. intros c H. change (Q0 n s T f) with (mkCall (n + T) s ATimeout :: tl (Q0 n s T f)) in H.
-  destruct H as [<-|H]; [left; reflexivity|]. apply Q0_tail_seq in H as (_ & _ & H). right; exact H.
-Qed.
-
-Lemma Q0_toks n s T f :
-  qtoks (Q0 n s T f) ++ map tok_sel (seq 0 (f_sels f)) = sched_tokens f.
-Proof.
-  unfold Q0, sched_tokens. rewrite qtoks_cons. cbn [dc_act tok_of not_timeout_tok tok_timeout Nat.eqb negb].
-  rewrite !qtoks_app, qtoks_extras, <- !app_assoc. f_equal. f_equal.
-  - unfold stop_calls. destruct (f_stop f); reflexivity.
-  - f_equal. unfold fire_calls. destruct (f_shape f); reflexivity.
-Qed.
-
-(* the crashing calls in the queue are exactly the events the statement speaks of *)
-Lemma crasher_event n s T f c :
-  In c (Q0 n s T f) -> crasher (dc_act c) = true ->
-  exists t, dc_time c = n + t /\ In (t, act_result (dc_act c)) (events T f).
-Proof.
-  unfold Q0, events. intros [<-|H] Hc.
-  - exists T. split; [reflexivity|]. left; reflexivity.
-  - apply in_app_or in H as [H|H].
-    + apply extras_acts in H as [j E]. rewrite E in Hc. discriminate.
-    + apply in_app_or in H as [H|H].
-      * unfold stop_calls in H. destruct (f_stop f) as [d|]; [|destruct H]. destruct H as [<-|[]].
-        exists d. split; [reflexivity|]. right. apply in_or_app. right. left; reflexivity.
-      * unfold fire_calls in H. destruct (f_shape f) as [? ?| t o |]; [destruct H| |destruct H].
-        destruct H as [<-|[]].
-        exists t. split; [reflexivity|]. right. apply in_or_app. left. left; reflexivity.
-Qed.
-
-Lemma event_crasher n s T f ev :
-  In ev (events T f) -> exists c, In c (Q0 n s T f) /\ crasher (dc_act c) = true /\ dc_time c = n + fst ev.
-Proof.
-  unfold Q0, events. intros [<-|H].
-  - eexists. split; [left; reflexivity|]. split; reflexivity.
-  - apply in_app_or in H as [H|H].
-    + destruct (f_shape f) as [? ?| t o |] eqn:E; [destruct H| |destruct H]. destruct H as [<-|[]].
-      eexists. split; [right; apply in_or_app; right; apply in_or_app; right; unfold fire_calls; rewrite E;
-                       left; reflexivity|]. split; reflexivity.
-    + destruct (f_stop f) as [d|] eqn:E; [|destruct H]. destruct H as [<-|[]].
-      eexists. split; [right; apply in_or_app; right; apply in_or_app; left; unfold stop_calls; rewrite E;
-                       left; reflexivity|]. split; reflexivity.
-Qed.
-
-(* the world in which the startup hook runs the function *)
-Definition wB (n s : nat) (T : time) (orc : list nat) (sg saved : sigtab) (ran : list nat) (re : option bool) : world :=
-  mkW (mkReactor n (S s) [mkCall (n + T) s ATimeout] [] [] true false orc) SFake sg true
-      (mkSp None None [] true (Some s) saved) ran re.
-
-Record AfterLoop (T : time) (f : fn) (n s : nat) (sg saved : sigtab) (ran : list nat) (re : option bool)
-       (wL : world) : Prop := {
-  al_stopped : running (w_r wL) = false;
-  al_allowed : Allowed T f (get_result (w_sp wL));
-  al_perm : Permutation (w_ran wL ++ qtoks (queue (w_r wL))) (ran ++ qtoks (Q0 n s T f));
-  al_sig : w_sig wL = sig_after_fn f sg;
-  al_flag : w_flag wL = true;
-  al_stop : w_stop wL = SFake;
-  al_reentry : w_reentry wL = (if f_reenter f then Some true else re);
-  al_junk : sp_junk (w_sp wL) = [];
-  al_saved : sp_saved (w_sp wL) = saved;
-  al_readers : readers (w_r wL) = map tok_sel (seq 0 (f_sels f));
-  al_hooks : hooks (w_r wL) = [];
-  al_rs : really_stopped (w_r wL) = false
-}.
-
-Lemma async_world iters T f n s orc sg saved ran re :
-  (forall h o, f_shape f <> Sync h o) ->
-  exists s3,
-    run_function (inner_run iters) f (wB n s T orc sg saved ran re)
-    = mkW (mkReactor n s3 (Q0 n s T f) [] (map tok_sel (seq 0 (f_sels f))) (negb (f_stop_now f)) false orc)
-          SFake (sig_after_fn f sg) true (mkSp None None [] true (Some s) saved) ran
-          (if f_reenter f then Some true else re).
-Proof.
-  intros Hsh. rewrite run_function_eq. unfold wB. rewrite fn_prefix_spec. unfold Q0, fire_calls.
-  destruct (f_shape f) as [h o|t o|].
-  - exfalso. eapply Hsh; reflexivity.
-  - eexists. unfold later, call_later, set_r. cbn. rewrite <- !app_assoc. reflexivity.
-  - eexists. rewrite app_nil_r. reflexivity.
-Qed.
-
-Lemma hook_and_loop T f n s orc sg saved ran re fuel :
-  length (f_extras f) + 3 <= fuel ->
-  exists wL,
-    loop w_r set_r exec_call fuel
-         (run_function (inner_run spinner_iterations) f (wB n s T orc sg saved ran re)) = (LDone, wL)
-    /\ AfterLoop T f n s sg saved ran re wL.
-Proof.
-  intros Hfuel. destruct (f_shape f) as [h o|t o|] eqn:Esh.
-  - (* a synchronous result: the callbacks crash the reactor from the startup hook *)
-    rewrite run_function_eq, Esh. unfold wB. rewrite fn_prefix_spec.
-    assert (EQ : [mkCall (n + T) s ATimeout] ++ extras_calls n (S s) 0 (f_extras f)
-                 ++ stop_calls n (S s + length (f_extras f)) f = Q0 n s T f).
-    { unfold Q0, fire_calls. rewrite Esh, app_nil_r. reflexivity. }
-    rewrite EQ.
-    eexists. split.
-    + apply loop_not_running. unfold stop_reactor, got, cancel_timeout, set_r, set_sp. cbn.
-      destruct o; cbn; reflexivity.
-    + unfold stop_reactor, got, cancel_timeout, set_r, set_sp. cbn.
-      destruct o as [v|e]; cbn; (constructor; cbn; auto;
-        [unfold Allowed; rewrite Esh; reflexivity
-        |rewrite qtoks_remove_timeout by apply Q0_seq_inv; reflexivity]).
-  - (* a Deferred *)
-    destruct (async_world spinner_iterations T f n s orc sg saved ran re) as [s3 ->];
-      [intros; rewrite Esh; discriminate|].
-    destruct (f_stop_now f) eqn:Enow; cbn [negb].
-    + eexists. split; [apply loop_not_running; reflexivity|].
-      constructor; cbn; auto. unfold Allowed. rewrite Esh, Enow. reflexivity.
-    + match goal with |- exists wL, loop _ _ _ _ ?w = _ /\ _ => set (wF := w) end.
-      assert (L : LI s wF).
-      { unfold wF. constructor; cbn; auto.
-        - apply Q0_nodup.
-        - apply Q0_seq_inv.
-        - apply Q0_tok_inv.
-        - exists (mkCall (n + T) s ATimeout). split; [left; reflexivity|reflexivity]. }
-      destruct (loop_spec s fuel wF L) as [wL [c [Hloop E]]].
-      { unfold wF; cbn. pose proof (Q0_length n s T f). lia. }
-      exists wL. split; [exact Hloop|].
-      destruct E as [E1 E2 E3 E4 E5 E6 E7]. unfold wF in *. cbn in E2, E4, E6, E7.
-      destruct E7 as (F1 & F2 & F3 & F4 & F5 & F6 & F7 & F8 & F9). cbn in *.
-      constructor; auto.
-      rewrite E5. unfold Allowed. rewrite Esh, Enow.
-      destruct (crasher_event _ _ _ _ _ E2 E3) as [tc [Htc Hev]].
-      exists tc. split; [exact Hev|]. intros ev Hin.
-      destruct (event_crasher n s T f ev Hin) as [c' [Hc' [Hcr' Ht']]].
-      specialize (E4 c' Hc' Hcr'). lia.
-  - destruct (async_world spinner_iterations T f n s orc sg saved ran re) as [s3 ->];
-      [intros; rewrite Esh; discriminate|].
-    destruct (f_stop_now f) eqn:Enow; cbn [negb].
-    + eexists. split; [apply loop_not_running; reflexivity|].
-      constructor; cbn; auto. unfold Allowed. rewrite Esh, Enow. reflexivity.
-    + match goal with |- exists wL, loop _ _ _ _ ?w = _ /\ _ => set (wF := w) end.
-      assert (L : LI s wF).
-      { unfold wF. constructor; cbn; auto.
-        - apply Q0_nodup.
-        - apply Q0_seq_inv.
-        - apply Q0_tok_inv.
-        - exists (mkCall (n + T) s ATimeout). split; [left; reflexivity|reflexivity]. }
-      destruct (loop_spec s fuel wF L) as [wL [c [Hloop E]]].
-      { unfold wF; cbn. pose proof (Q0_length n s T f). lia. }
-      exists wL. split; [exact Hloop|].
-      destruct E as [E1 E2 E3 E4 E5 E6 E7]. unfold wF in *. cbn in E2, E4, E6, E7.
-      destruct E7 as (F1 & F2 & F3 & F4 & F5 & F6 & F7 & F8 & F9). cbn in *.
-      constructor; auto.
-      rewrite E5. unfold Allowed. rewrite Esh, Enow.
-      destruct (crasher_event _ _ _ _ _ E2 E3) as [tc [Htc Hev]].
-      exists tc. split; [exact Hev|]. intros ev Hin.
-      destruct (event_crasher n s T f ev Hin) as [c' [Hc' [Hcr' Ht']]].
-      specialize (E4 c' Hc' Hcr'). lia.
-Qed.
-
-(* ---- signals ---- *)
-Lemma getsig_setsig s s' h t : getsig s (setsig s' h t) = if Nat.eqb s' s then h else getsig s t.
-Proof. reflexivity. Qed.
-
-Lemma restore_spec L : forall t0 t1 s,
-  getsig s (fold_left (fun t sh => setsig (fst sh) (snd sh) t) (map (fun k => (k, getsig k t0)) L) t1)
-  = if existsb (Nat.eqb s) L then getsig s t0 else getsig s t1.
-Proof.
-  induction L as [|k L IH]; intros; [reflexivity|]. cbn [map fold_left existsb fst snd]. rewrite IH.
-  destruct (existsb (Nat.eqb s) L); [rewrite orb_true_r; reflexivity|]. rewrite orb_false_r.
-  rewrite getsig_setsig. rewrite (Nat.eqb_sym s k). destruct (Nat.eqb_spec k s); [subst; reflexivity|reflexivity].
-Qed.
-
-Lemma existsb_in s L : In s L -> existsb (Nat.eqb s) L = true.
-Proof. intros H. apply existsb_exists. exists s. split; [exact H|apply Nat.eqb_refl]. Qed.
-
-(* ---- _clean ---- *)
-Lemma cancel_all_spec dcs : forall n s q hk rd rn rs orc st sg fl sp ran re,
-  fold_left (fun w c => set_r (cancel (dc_seq c) (w_r w)) w) dcs
-            (mkW (mkReactor n s q hk rd rn rs orc) st sg fl sp ran re)
-  = mkW (mkReactor n s (fold_left (fun q (c : dcall action) => remove_seq (dc_seq c) q) dcs q) hk rd rn rs orc)
-        st sg fl sp ran re.
-Proof. induction dcs as [|c r IH]; intros; [reflexivity|]. cbn [fold_left]. unfold cancel, set_queue, set_r. cbn. apply IH. Qed.
-
-Lemma cancel_all_empty (dcs : list (dcall action)) : forall q : list (dcall action),
-  (forall x, In x q -> exists c, In c dcs /\ dc_seq c = dc_seq x) ->
-  fold_left (fun q (c : dcall action) => remove_seq (dc_seq c) q) dcs q = [].
-Proof.
-  induction dcs as [|c r IH]; intros q H.
-  - destruct q as [|x q]; [reflexivity|]. destruct (H x (or_introl eq_refl)) as [c [[] _]].
-  - cbn [fold_left]. apply IH. intros x Hx. apply remove_seq_in in Hx as [Hx Hne].
-    destruct (H x Hx) as [c' [[<-|Hc'] E]]; [congruence|]. exists c'. split; assumption.
-Qed.
-
-Lemma filter_sels j k : filter not_timeout_tok (map tok_sel (seq j k)) = map tok_sel (seq j k).
-Proof. revert j; induction k as [|k IH]; intros; [reflexivity|]. cbn [seq map filter]. rewrite IH. reflexivity. Qed.
-
-(* ---- the idle state between runs ---- *)
-Record idle (w : world) : Prop := {
-  id_running : running (w_r w) = false;
-  id_queue : queue (w_r w) = [];
-  id_readers : readers (w_r w) = [];
-  id_hooks : hooks (w_r w) = [];
-  id_rs : really_stopped (w_r w) = false;
-  id_stop : w_stop w = SReal;
-  id_flag : w_flag w = false;
-  id_saved : sp_saved (w_sp w) = []
-}.
-
-Lemma run_body_idle T f n s orc sg su fa spin tc ran re :
-  run_body (inner_run spinner_iterations) spinner_iterations T f
-           (mkW (mkReactor n s [] [] [] false false orc) SReal sg true (mkSp su fa [] spin tc []) ran re)
-  = let saved := map (fun k => (k, getsig k sg)) preserved_signals in
-    let sgR := fold_left (fun t k => setsig k h_reactor t) reactor_signals sg in
-    let '(e, w) := loop w_r set_r exec_call (S (length (f_extras f) + 4))
-                        (run_function (inner_run spinner_iterations) f (wB n s T orc sgR saved ran re)) in
-    let w := restore_signals (set_stop SReal w) in
-    match e with
-    | LDone => (get_result (w_sp w), clean spinner_iterations w)
-    | _ => (Raised EOther, w)
-    end.
-Proof. reflexivity. Qed.
-
-Lemma run_fresh T f w : idle w -> sp_junk (w_sp w) = [] ->
-  exists r w', run spinner_iterations T f w = (r, w')
-    /\ idle w' /\ Allowed T f r
-    /\ w_reentry w' = (if f_reenter f then Some true else w_reentry w)
-    /\ Permutation (w_ran w' ++ filter not_timeout_tok (sp_junk (w_sp w'))) (w_ran w ++ sched_tokens f)
-    /\ (forall s, In s preserved_signals -> getsig s (w_sig w') = getsig s (w_sig w)).
-Proof.
-  intros [I1 I2 I3 I4 I5 I6 I7 I8] Hj.
-  destruct w as [r st sg fl sp ran re]. destruct r as [n s q hk rd rn rs orc]. destruct sp as [su fa jk spin tc sv].
-  cbn in *. subst.
-  unfold run, guarded. cbn [w_flag].
-  change (set_flag true
-            (mkW (mkReactor n s [] [] [] false false orc) SReal sg false (mkSp su fa [] spin tc []) ran re))
-    with (mkW (mkReactor n s [] [] [] false false orc) SReal sg true (mkSp su fa [] spin tc []) ran re).
-  rewrite run_body_idle. cbv zeta.
-  destruct (hook_and_loop T f n s orc (fold_left (fun t k => setsig k h_reactor t) reactor_signals sg)
-                          (map (fun k => (k, getsig k sg)) preserved_signals) ran re
-                          (S (length (f_extras f) + 4))) as [wL [Hloop A]]; [lia|].
-  rewrite Hloop. destruct A as [A1 A2 A3 A4 A5 A6 A7 A8 A9 A10 A11 A12].
-  destruct wL as [rL stL sgL flL spL ranL reL]. destruct rL as [nL sL qL hkL rdL rnL rsL orcL].
-  destruct spL as [suL faL jkL spinL tcL svL].
-  cbn [w_r w_stop w_sig w_flag w_sp w_ran w_reentry sp_junk sp_saved running queue readers hooks really_stopped]
-    in A1, A3, A4, A5, A6, A7, A8, A9, A10, A11, A12. subst.
-  unfold clean. rewrite spinner_iterations_0. unfold Nat.iter. cbn [nat_rect].
-  unfold restore_signals, set_stop, set_sp, set_sig, sp_set_saved.
-  cbn [w_r w_stop w_sig w_flag w_sp w_ran w_reentry sp_success sp_failure sp_junk sp_spinning sp_timeout_call
-       sp_saved queue].
-  match goal with
-  | |- context [fold_left (fun t sh => setsig (fst sh) (snd sh) t) ?l ?t0] =>
-      assert (Hsig : forall k, In k preserved_signals ->
-                getsig k (fold_left (fun t sh => setsig (fst sh) (snd sh) t) l t0) = getsig k sg)
-        by (intros k Hk; rewrite restore_spec, (existsb_in _ _ Hk); reflexivity);
-      set (sgF := fold_left (fun t sh => setsig (fst sh) (snd sh) t) l t0) in *; clearbody sgF
-  end.
-  rewrite cancel_all_spec.
-  rewrite cancel_all_empty by (intros x Hx; exists x; split; [exact Hx|reflexivity]).
-  unfold remove_all, set_readers, set_r, set_sp, sp_set_junk, set_flag. cbn.
-  eexists; eexists. split; [reflexivity|]. cbn.
-  split; [constructor; reflexivity|]. split; [exact A2|]. split; [reflexivity|]. split.
-  - rewrite filter_app. fold (qtoks qL). rewrite filter_sels.
-    rewrite app_assoc. rewrite A3. rewrite <- app_assoc. rewrite Q0_toks. reflexivity.
-  - exact Hsig.
-Qed.
-
-(* C15_stale_junk: nothing at all happens *)
-Lemma run_stale iters T f w : w_flag w = false -> sp_junk (w_sp w) <> [] ->
-  run iters T f w = (Raised EStaleJunk, w).
-Proof.
-  intros Hf Hj. unfold run, guarded. rewrite Hf. unfold run_body. cbn [set_flag w_sp].
-  destruct (sp_junk (w_sp w)) as [|x j]; [contradiction|].
-  destruct w; cbn in *; subst; reflexivity.
-Qed.
-
-(* ------------------------------------------------------------------ *)
-(* Part 4: booleans of the statement; histories                         *)
-(* ------------------------------------------------------------------ *)
-Lemma exc_eqb_spec a b : exc_eqb a b = true <-> a = b.
-Proof.
-  destruct a, b; simpl; split; intro H; try reflexivity; try discriminate.
-  - apply Nat.eqb_eq in H; congruence.
-  - injection H as ->; apply Nat.eqb_refl.
-Qed.
-
-Lemma result_eqb_spec a b : result_eqb a b = true <-> a = b.
-Proof. apply res_eqb_spec; [apply Nat.eqb_eq|apply exc_eqb_spec]. Qed.
-
-Lemma result_eqb_refl a : result_eqb a a = true.
-Proof. apply result_eqb_spec; reflexivity. Qed.
-
-Definition fold_min (a : time) (l : list (time * res value exc)) : time :=
-  fold_right (fun ev m => Nat.min (fst ev) m) a l.
-
-Lemma fold_min_spec (l : list (time * res value exc)) a :
-  fold_min a l <= a /\ (forall ev, In ev l -> fold_min a l <= fst ev)
-  /\ (fold_min a l = a \/ exists ev, In ev l /\ fst ev = fold_min a l).
-Proof.
-  induction l as [|e l IH].
-  - split; [apply Nat.le_refl|]. split; [intros ev []|left; reflexivity].
-  - destruct IH as (H1 & H2 & H3). change (fold_min a (e :: l)) with (Nat.min (fst e) (fold_min a l)).
-    set (m := fold_min a l) in *.
-    split; [etransitivity; [apply Nat.le_min_r|exact H1]|]. split.
-    + intros ev [<-|H]; [apply Nat.le_min_l|]. etransitivity; [apply Nat.le_min_r|]. apply H2. exact H.
-    + destruct (Nat.min_dec (fst e) m) as [E|E]; rewrite E.
-      * right. exists e. split; [left|]; reflexivity.
-      * destruct H3 as [H3|[ev [Hin Hev]]]; [left; exact H3|]. right. exists ev. split; [right|]; assumption.
-Qed.
-
-Lemma earliest_spec evs : evs <> [] ->
-  (forall ev, In ev evs -> earliest evs <= fst ev) /\ (exists ev, In ev evs /\ fst ev = earliest evs).
-Proof.
-  destruct evs as [|e0 l]; [contradiction|]. intros _. unfold earliest. cbn [hd].
-  destruct (fold_min_spec (e0 :: l) (fst e0)) as (H1 & H2 & H3). unfold fold_min in *. split; [exact H2|].
-  destruct H3 as [H3|[ev [Hin Hev]]].
-  - exists e0. split; [left; reflexivity|]. symmetry; exact H3.
-  - exists ev. split; assumption.
-Qed.
-
-Lemma events_nonempty T f : events T f <> [].
-Proof. unfold events. discriminate. Qed.
-
-Lemma allowed_iff T f r : allowed T f r = true <-> Allowed T f r.
-Proof.
-  unfold allowed, Allowed. destruct (f_shape f) as [h o|t o|].
-  - apply result_eqb_spec.
-  - destruct (f_stop_now f); [apply result_eqb_spec|].
-    destruct (earliest_spec (events T f) (events_nonempty T f)) as [Hle [ev0 [Hin0 Hev0]]]. split.
-    + intros H. apply existsb_exists in H as [ev [Hin H]]. apply andb_true_iff in H as [H1 H2].
-      apply Nat.eqb_eq in H1. apply result_eqb_spec in H2. exists (fst ev). split.
-      * rewrite <- H2. destruct ev; exact Hin.
-      * intros ev' Hin'. rewrite H1. apply Hle. exact Hin'.
-    + intros [t' [Hin Hmin]]. apply existsb_exists. exists (t', r). split; [exact Hin|].
-      cbn [fst snd]. rewrite result_eqb_refl, andb_true_r. apply Nat.eqb_eq.
-      specialize (Hmin ev0 Hin0). specialize (Hle (t', r) Hin). cbn [fst] in Hle. lia.
-  - destruct (f_stop_now f); [apply result_eqb_spec|].
-    destruct (earliest_spec (events T f) (events_nonempty T f)) as [Hle [ev0 [Hin0 Hev0]]]. split.
-    + intros H. apply existsb_exists in H as [ev [Hin H]]. apply andb_true_iff in H as [H1 H2].
-      apply Nat.eqb_eq in H1. apply result_eqb_spec in H2. exists (fst ev). split.
-      * rewrite <- H2. destruct ev; exact Hin.
-      * intros ev' Hin'. rewrite H1. apply Hle. exact Hin'.
-    + intros [t' [Hin Hmin]]. apply existsb_exists. exists (t', r). split; [exact Hin|].
-      cbn [fst snd]. rewrite result_eqb_refl, andb_true_r. apply Nat.eqb_eq.
-      specialize (Hmin ev0 Hin0). specialize (Hle (t', r) Hin). cbn [fst] in Hle. lia.
-Qed.
-
-Lemma perm_eqb_iff a b : perm_eqb a b = true <-> forall x, count a x = count b x.
-Proof.
-  unfold perm_eqb. split.
-  - intros H x. destruct (in_dec Nat.eq_dec x (a ++ b)) as [Hin|Hn].
-    + eapply forallb_forall in H; [|exact Hin]. apply Nat.eqb_eq in H. exact H.
-    + unfold count. rewrite !(proj1 (count_occ_not_In Nat.eq_dec _ _)); [reflexivity| |];
-        intro Hx; apply Hn; apply in_or_app; auto.
-  - intros H. apply forallb_forall. intros x _. apply Nat.eqb_eq. apply H.
-Qed.
-
-Lemma perm_eqb_of_perm a b : Permutation a b -> perm_eqb a b = true.
-Proof. intros H. apply perm_eqb_iff. intros x. apply Permutation_count_occ. exact H. Qed.
-
-Lemma filter_perm {A} (f : A -> bool) l l' : Permutation l l' -> Permutation (filter f l) (filter f l').
-Proof.
-  induction 1; simpl.
-  - reflexivity.
-  - destruct (f x); [apply perm_skip|]; assumption.
-  - destruct (f x), (f y); try reflexivity. apply perm_swap.
-  - etransitivity; eassumption.
-Qed.
-
-Lemma sort_perm l : Permutation l (sort_toks l).
-Proof. apply isort_perm. Qed.
-
-Lemma sort_nil_iff l : sort_toks l = [] <-> l = [].
-Proof.
-  split; intros H; [|subst; reflexivity].
-  pose proof (sort_perm l) as P. rewrite H in P. apply Permutation_nil. symmetry. exact P.
-Qed.
-
-(* the harness' preparations keep the reactor idle *)
-Definition prepare (w : world) (rs : runspec) : world :=
-  set_reentry None (set_ran [] (preinstall (r_pre rs) (if r_clear rs then clear_junk w else w))).
-
-Lemma prepare_idle w rs : idle w -> idle (prepare w rs).
-Proof.
-  intros [I1 I2 I3 I4 I5 I6 I7 I8]. unfold prepare, preinstall, clear_junk.
-  destruct (r_clear rs); constructor; cbn; assumption.
-Qed.
-
-Lemma prepare_junk w rs :
-  sp_junk (w_sp (prepare w rs)) = if r_clear rs then [] else sp_junk (w_sp w).
-Proof. unfold prepare, preinstall, clear_junk. destruct (r_clear rs); reflexivity. Qed.
-
-Lemma prepare_sigs w rs : wf_run rs ->
-  map (fun s => getsig s (w_sig (prepare w rs))) reactor_signals = r_pre rs.
-Proof.
-  unfold wf_run, prepare, preinstall. cbn [w_sig set_reentry set_ran set_sig].
-  generalize (w_sig (if r_clear rs then clear_junk w else w)). intros t.
-  destruct (r_pre rs) as [|a [|b [|c [|d l]]]]; try discriminate. intros _. reflexivity.
-Qed.
-
-Lemma step_eq w rs :
-  step w rs = let '(r, w') := run spinner_iterations (r_timeout rs) (r_fn rs) (prepare w rs) in (observe r w', w').
-Proof. reflexivity. Qed.
-
-Lemma idle_clean_obs w r : idle w -> let o := observe r w in
-  o_running o = false /\ o_pending o = 0 /\ o_readers o = 0 /\ o_stop_ok o = true.
-Proof.
-  intros [I1 I2 I3 I4 I5 I6 I7 I8]. unfold observe. cbn. rewrite I1, I2, I3, I5, I6. repeat split.
-Qed.
-
-Lemma step_ok w rs : idle w -> wf_run rs ->
-  let '(o, w') := step w rs in
-  idle w'
-  /\ Run_spec (if r_clear rs then [] else sort_toks (sp_junk (w_sp w))) rs o
-  /\ o_junk o = sort_toks (sp_junk (w_sp w')).
-Proof.
-  intros Hid Hwf. rewrite step_eq.
-  pose proof (prepare_idle w rs Hid) as Hid3. pose proof (prepare_junk w rs) as Hj3.
-  pose proof (prepare_sigs w rs Hwf) as Hs3.
-  assert (Hran3 : w_ran (prepare w rs) = []) by reflexivity.
-  assert (Hre3 : w_reentry (prepare w rs) = None) by reflexivity.
-  set (w3 := prepare w rs) in *.
-  destruct (sp_junk (w_sp w3)) as [|x j] eqn:Ej.
-  - (* no stale junk: the run happens *)
-    destruct (run_fresh (r_timeout rs) (r_fn rs) w3 Hid3 Ej) as (r & w' & Hrun & Hid' & Hal & Hre & Hperm & Hsig).
-    rewrite Hrun. split; [exact Hid'|]. split; [|reflexivity].
-    assert (Est : (if r_clear rs then [] else sort_toks (sp_junk (w_sp w))) = []).
-    { destruct (r_clear rs); [reflexivity|]. rewrite <- Hj3. reflexivity. }
-    rewrite Est. destruct (idle_clean_obs w' r Hid') as (C1 & C2 & C3 & C4).
-    split; [|split; [|split]].
-    + unfold Clean. repeat split; auto. cbn [observe o_sigs]. rewrite <- Hs3.
-      apply map_ext_in. intros s Hs. apply Hsig. apply reactor_signals_preserved. exact Hs.
-    + exact Hal.
-    + cbn [observe o_reentry]. rewrite Hre, Hre3. reflexivity.
-    + intros t. cbn [observe o_ran o_junk]. apply Permutation_count_occ.
-      rewrite Hran3 in Hperm. cbn [app] in Hperm. rewrite <- Hperm.
-      apply Permutation_app; [symmetry; apply sort_perm|]. apply filter_perm. symmetry; apply sort_perm.
-  - (* stale junk: refused, nothing happens *)
-    rewrite (run_stale spinner_iterations (r_timeout rs) (r_fn rs) w3); [|apply Hid3|rewrite Ej; discriminate].
-    split; [exact Hid3|]. split; [|reflexivity].
-    assert (Est : (if r_clear rs then [] else sort_toks (sp_junk (w_sp w))) = sort_toks (x :: j)).
-    { destruct (r_clear rs); [discriminate Hj3|]. rewrite <- Hj3. reflexivity. }
-    rewrite Est. destruct (sort_toks (x :: j)) as [|y l] eqn:Esort.
-    { apply (proj1 (sort_nil_iff (x :: j))) in Esort. discriminate Esort. }
-    destruct (idle_clean_obs w3 (Raised EStaleJunk) Hid3) as (C1 & C2 & C3 & C4).
-    split.
-    + unfold Clean. repeat split; auto.
-    + cbn [observe o_res o_junk o_ran o_reentry]. rewrite Ej, Esort, Hran3, Hre3. repeat split.
-Qed.
-
-(* ------------------------------------------------------------------ *)
-(* Part 5: histories; the statement; the comparison                     *)
-(* ------------------------------------------------------------------ *)
-Lemma new_world_idle orc : idle (new_world orc).
-Proof. constructor; reflexivity. Qed.
-
-Lemma steps_ok rss : forall w, idle w -> Forall wf_run rss ->
-  Runs_spec (sort_toks (sp_junk (w_sp w))) rss (steps w rss).
-Proof.
-  induction rss as [|rs rss IH]; intros w Hid Hwf; cbn [steps]; [exact I|].
-  inversion Hwf as [|? ? Hrs Hrest]; subst.
-  pose proof (step_ok w rs Hid Hrs) as H. destruct (step w rs) as [o w'].
-  destruct H as (Hid' & Hrun & Hj). cbn [Runs_spec]. split; [exact Hrun|]. rewrite Hj. apply IH; assumption.
-Qed.
-
-Lemma model_meets_Spec i : wf i -> Spec i (model i).
-Proof. intros H. unfold Spec, model. apply (steps_ok (i_runs i) (new_world (i_oracle i)) (new_world_idle _) H). Qed.
-
-Lemma clean_okb_iff rs o : clean_okb rs o = true <-> Clean rs o.
-Proof.
-  unfold clean_okb, Clean. rewrite !andb_true_iff, negb_true_iff, !Nat.eqb_eq, (list_eqb_spec Nat.eqb Nat.eqb_eq).
-  tauto.
-Qed.
-
-Lemma run_okb_iff stale rs o : run_okb stale rs o = true <-> Run_spec stale rs o.
-Proof.
-  unfold run_okb, Run_spec. rewrite andb_true_iff, clean_okb_iff. destruct stale as [|x l].
-  - rewrite !andb_true_iff, allowed_iff, (option_eqb_spec Bool.eqb bool_eqb_spec), perm_eqb_iff. tauto.
-  - rewrite !andb_true_iff, result_eqb_spec, !(list_eqb_spec Nat.eqb Nat.eqb_eq),
-      (option_eqb_spec Bool.eqb bool_eqb_spec). tauto.
-Qed.
-
-Lemma runs_okb_iff rss : forall prev os, runs_okb prev rss os = true <-> Runs_spec prev rss os.
-Proof.
-  induction rss as [|rs rss IH]; intros prev [|o os]; cbn [runs_okb Runs_spec]; try tauto;
-    try (split; [discriminate|contradiction]).
-  rewrite andb_true_iff, run_okb_iff, IH. tauto.
-Qed.
-
-Lemma spec_okb_iff i o : spec_okb i o = true <-> Spec i o.
-Proof. apply runs_okb_iff. Qed.
-
-Lemma model_meets_spec i : wf i -> spec_okb i (model i) = true.
-Proof. intros H. apply spec_okb_iff. apply model_meets_Spec. exact H. Qed.
-
-Lemma robs_eqb_spec a b : robs_eqb a b = true <-> a = b.
-Proof.
-  destruct a as [a1 a2 a3 a4 a5 a6 a7 a8 a9], b as [b1 b2 b3 b4 b5 b6 b7 b8 b9]. unfold robs_eqb.
-  cbn [o_res o_reentry o_ran o_junk o_running o_pending o_readers o_stop_ok o_sigs].
-  rewrite !andb_true_iff, result_eqb_spec, (option_eqb_spec Bool.eqb bool_eqb_spec),
-    !(list_eqb_spec Nat.eqb Nat.eqb_eq), !bool_eqb_spec, !Nat.eqb_eq.
-  split.
-  - intros [[[[[[[[-> ->] ->] ->] ->] ->] ->] ->] ->]. reflexivity.
-  - intros H; injection H as -> -> -> -> -> -> -> -> ->. repeat split.
-Qed.
-
-Lemma obs_eqb_spec a b : obs_eqb a b = true <-> a = b.
-Proof. apply list_eqb_spec. apply robs_eqb_spec. Qed.
-
-(* ---- the per-clause theorems, on any idle (fresh or used) spinner ---- *)
-Lemma result_as_timing T f w : idle w -> sp_junk (w_sp w) = [] ->
-  Allowed T f (fst (run spinner_iterations T f w)).
-Proof.
-  intros Hid Hj. destruct (run_fresh T f w Hid Hj) as (r & w' & Hrun & _ & Hal & _). rewrite Hrun. exact Hal.
-Qed.
-
-(* the timing cases spelled out for a Deferred against the timeout alone *)
-Lemma result_cases T f w t o : idle w -> sp_junk (w_sp w) = [] ->
-  f_shape f = Later t o -> f_stop f = None -> f_stop_now f = false ->
-  let r := fst (run spinner_iterations T f w) in
-  (t < T -> r = result_of o) /\ (T < t -> r = Raised ETimeout)
-  /\ (t = T -> r = result_of o \/ r = Raised ETimeout).
-Proof.
-  intros Hid Hj Hsh Hst Hnow. pose proof (result_as_timing T f w Hid Hj) as H.
-  unfold Allowed, events in H. rewrite Hsh, Hst, Hnow in H. cbn [app] in H.
-  destruct H as [t' [Hin Hmin]]. cbv zeta.
-  pose proof (Hmin _ (or_introl eq_refl)) as H1. pose proof (Hmin _ (or_intror (or_introl eq_refl))) as H2.
-  cbn [fst] in H1, H2.
-  destruct Hin as [E|[E|[]]]; injection E as <- <-; repeat split; intros; try lia; auto.
-Qed.
-
-Lemma result_never T f w : idle w -> sp_junk (w_sp w) = [] ->
-  f_shape f = Never -> f_stop f = None -> f_stop_now f = false ->
-  fst (run spinner_iterations T f w) = Raised ETimeout.
-Proof.
-  intros Hid Hj Hsh Hst Hnow. pose proof (result_as_timing T f w Hid Hj) as H.
-  unfold Allowed, events in H. rewrite Hsh, Hst, Hnow in H. cbn [app] in H.
-  destruct H as [t' [[E|[]] _]]. injection E as _ <-. reflexivity.
-Qed.
-
-Lemma result_stopped_first T f w s : idle w -> sp_junk (w_sp w) = [] ->
-  (forall h o, f_shape f <> Sync h o) -> f_stop f = Some s -> s < T ->
-  (forall t o, f_shape f = Later t o -> s < t) ->
-  fst (run spinner_iterations T f w) = Raised ENoResult.
-Proof.
-  intros Hid Hj Hsh Hst HsT Hlt. pose proof (result_as_timing T f w Hid Hj) as H.
-  unfold Allowed, events in H. rewrite Hst in H.
-  destruct (f_shape f) as [h o|t o|] eqn:E.
-  - exfalso. eapply Hsh; reflexivity.
-  - destruct (f_stop_now f); [exact H|]. cbn [app] in H. destruct H as [t' [Hin Hmin]].
-    pose proof (Hmin (s, Raised ENoResult)) as H3. cbn [fst] in H3.
-    specialize (Hlt t o eq_refl).
-    destruct Hin as [E1|[E1|[E1|[]]]]; injection E1 as <- <-; try reflexivity;
-      exfalso; assert (_ <= s) by (apply H3; right; right; left; reflexivity); lia.
-  - destruct (f_stop_now f); [exact H|]. cbn [app] in H. destruct H as [t' [Hin Hmin]].
-    pose proof (Hmin (s, Raised ENoResult)) as H3. cbn [fst] in H3.
-    destruct Hin as [E1|[E1|[]]]; injection E1 as <- <-; try reflexivity;
-      exfalso; assert (_ <= s) by (apply H3; right; left; reflexivity); lia.
-Qed.
-
-Lemma reentry_refused iters T f w : w_flag w = true -> run iters T f w = (Raised EReentry, w).
-Proof. apply guarded_refuses. Qed.
-
-Lemma reentry_from_function T f w : idle w -> sp_junk (w_sp w) = [] -> f_reenter f = true ->
-  w_reentry (snd (run spinner_iterations T f w)) = Some true.
-Proof.
-  intros Hid Hj Hre. destruct (run_fresh T f w Hid Hj) as (r & w' & Hrun & _ & _ & H & _).
-  rewrite Hrun. cbn [snd]. rewrite H, Hre. reflexivity.
-Qed.
-
-Lemma run_keeps_idle T f w : idle w -> idle (snd (run spinner_iterations T f w)).
-Proof.
-  intros Hid. destruct (sp_junk (w_sp w)) as [|x j] eqn:Ej.
-  - destruct (run_fresh T f w Hid Ej) as (r & w' & Hrun & Hid' & _). rewrite Hrun. exact Hid'.
-  - rewrite run_stale; [exact Hid|apply Hid|rewrite Ej; discriminate].
-Qed.
-
-Lemma junk_accounts T f w : idle w -> sp_junk (w_sp w) = [] ->
-  let w' := snd (run spinner_iterations T f w) in
-  Permutation (w_ran w' ++ filter not_timeout_tok (sp_junk (w_sp w'))) (w_ran w ++ sched_tokens f).
-Proof.
-  intros Hid Hj. destruct (run_fresh T f w Hid Hj) as (r & w' & Hrun & _ & _ & _ & H & _).
-  rewrite Hrun. exact H.
-Qed.
-
-Lemma run_restores T f w : idle w ->
-  let w' := snd (run spinner_iterations T f w) in
-  w_stop w' = SReal /\ really_stopped (w_r w') = false
-  /\ forall s, In s preserved_signals -> getsig s (w_sig w') = getsig s (w_sig w).
-Proof.
-  intros Hid. pose proof (run_keeps_idle T f w Hid) as Hid'. cbv zeta.
-  split; [apply Hid'|]. split; [apply Hid'|].
-  destruct (sp_junk (w_sp w)) as [|x j] eqn:Ej.
-  - destruct (run_fresh T f w Hid Ej) as (r & w' & Hrun & _ & _ & _ & _ & H). rewrite Hrun. exact H.
-  - rewrite run_stale; [reflexivity|apply Hid|rewrite Ej; discriminate].
-Qed.
-
-Lemma named_signals_preserved : In sig_int preserved_signals /\ In sig_term preserved_signals
-                                /\ In sig_chld preserved_signals.
-Proof. repeat split; apply reactor_signals_preserved; simpl; auto. Qed.
-
-(* the world after a history *)
-Fixpoint world_after (w : world) (rss : list runspec) : world :=
-  match rss with [] => w | rs :: rest => world_after (snd (step w rs)) rest end.
-
-Lemma world_after_idle rss : forall w, idle w -> Forall wf_run rss -> idle (world_after w rss).
-Proof.
-  induction rss as [|rs rss IH]; intros w Hid Hwf; [exact Hid|]. cbn [world_after].
-  inversion Hwf as [|? ? Hrs Hrest]; subst. apply IH; [|exact Hrest].
-  pose proof (step_ok w rs Hid Hrs) as H. destruct (step w rs) as [o w']. apply H.
-Qed.
-
-Lemma nth_run_like_first orc rss T f : Forall wf_run rss ->
-  let w := clear_junk (world_after (new_world orc) rss) in
-  Allowed T f (fst (run spinner_iterations T f w))
-  /\ idle (snd (run spinner_iterations T f w))
-  /\ (forall s, In s preserved_signals ->
-        getsig s (w_sig (snd (run spinner_iterations T f w))) = getsig s (w_sig w)).
-Proof.
-  intros Hwf. cbv zeta.
-  assert (Hid : idle (clear_junk (world_after (new_world orc) rss))).
-  { pose proof (world_after_idle rss _ (new_world_idle orc) Hwf) as [I1 I2 I3 I4 I5 I6 I7 I8].
-    constructor; assumption. }
-  split; [apply result_as_timing; [exact Hid|reflexivity]|].
-  split; [apply run_keeps_idle; exact Hid|]. apply run_restores. exact Hid.
-Qed.
